@@ -19,7 +19,7 @@ import (
 
 // C01: the public API is total.
 
-const c01Prelude = "v_neg = -3; v_zero = 0; v_one = 1; v_pos = 7; v_big = 1099511627776; v_float = 1.5; v_negfloat = -2.5; v_emptystr = ''; v_str = 'ab'; v_numstr = '12'; " +
+const c01Prelude = "v_neg = -3; v_zero = 0; v_one = 1; v_pos = 7; v_big = 1099511627776; v_huge = 4611686018427387904; v_maxint = 9223372036854775807; v_float = 1.5; v_negfloat = -2.5; v_emptystr = ''; v_str = 'ab'; v_numstr = '12'; " +
 	"v_null = null; v_emptyarr = []; v_arr = [3,1,2]; v_nested = [[1],'x',{'k':2}]; v_emptydict = {}; v_dict = {'a':1,'b':[2]}; func v_func(x) { x }; v_native = abs; " +
 	"&v_computed = 1+1; &v_badcomputed = 1/0; x7 = 5"
 
